@@ -53,7 +53,6 @@ type rawPeer struct {
 	conn    *grpc.ClientConn
 	cancel  context.CancelFunc
 	session atomic.Value
-	stallAfter int
 	recvd   atomic.Int64
 }
 
@@ -86,7 +85,7 @@ func startRawPeerFrom(addr, mode, listen string, startSeq uint64) (*rawPeer, err
 		conn.Close()
 		return nil, err
 	}
-	p := &rawPeer{conn: conn, cancel: cancel, stallAfter: 3}
+	p := &rawPeer{conn: conn, cancel: cancel}
 	if mode == "noread" {
 		return p, nil
 	}
@@ -102,11 +101,6 @@ func startRawPeerFrom(addr, mode, listen string, startSeq uint64) (*rawPeer, err
 				return
 			}
 			p.recvd.Add(1)
-			if mode == "stall_after" && last > 0 && p.recvd.Load() >= int64(p.stallAfter) && len(m.Entries) < 100 {
-				// caught up (the last message was not a full catch-up chunk): from now on this peer reads nothing
-				<-ctx.Done()
-				return
-			}
 			for _, e := range m.Entries {
 				if e.SequenceNumber > last {
 					last = e.SequenceNumber
@@ -117,7 +111,7 @@ func startRawPeerFrom(addr, mode, listen string, startSeq uint64) (*rawPeer, err
 			switch mode {
 			case "slow":
 				time.Sleep(time.Second)
-			case "ack", "stall_after":
+			case "ack":
 				cl.Acknowledge(actx, &rp.Ack{AcknowledgedUpTo: last})
 			case "nack":
 				// (the NACKs are sent by the separate goroutine below)
